@@ -62,6 +62,9 @@ CHECKS = {
     "C07": dict(tech="offline trace oracle: context existence / persistence / finalised model against return codes and the context observed (m_ctx_name, m_ctx_len) after every record, teardown post-conditions (all modules ZOMBIE, one stop callback each), calls without context incl. before the first registration of the process; ctx_lifecycle profile on plain and asan builds",
                 text="Generated register / finalize / loop / deregister cycles with every flag combination and module state mix are judged call by call; the asan build is included because an uncreated thread-specific key collides with the sanitizer's own keys.",
                 ref="C07"),
+    "C18": dict(tech="offline trace oracle with one-sided real-time bounds from harness timestamps taken right before/after every call: pairwise success bound b + r*dt + 2, -EAGAIN calls without effect (state, source count, delivery), no -EAGAIN without a bucket or after its removal, bounded recovery probe after > 25 periods of dispatching, user timers vs keyed-set model; tokenbucket profile; plain build",
+                text="Throttled bursts from inside the running loop, exhaustion/recovery, re-configuration with user timers registered, rate 0 and stop/start are judged with a bound that is sound for any refill discipline (an exact tick-level model would over-specify); scheduling delays can only loosen the bound, never cause an alarm.",
+                ref="C18"),
     "C17": dict(tech="offline trace oracle: handler-stack model per module checked at every handler invocation (4 distinguishable handler functions), become/unbecome admission and return codes, stack reset at stop; stash_become profile; plain build, both modes",
                 text="Every handler invocation, including stash replays, is attributed to the handler function that received it and compared with the top of the modelled stack; become/unbecome return codes and the reset at stop are judged call by call.",
                 ref="C16/C17"),
